@@ -22,7 +22,8 @@ void judgeModel(Ctx &ctx, const std::string &prop, const SemModel &m, const Mode
     if (am == nullptr || !am->isValid()) {
         // classification is C05's property; without a valid analysis there is nothing to run
         std::string rule = analyser->errorCount() != 0 ? ruleName(analyser->error(0)->referenceRule()) : "none";
-        viol("C05", "valid-model-not-analysable:" + gotType + ":" + rule + ":" + caseTag.substr(0, caseTag.find(' ')), "expected " + wantType + "\n" + issueSummary(*analyser), text);
+        // (a model that went through flattenModel and can no longer be analysed is the flattener's doing)
+        viol(prop == "C06" ? "C06" : "C05", "valid-model-not-analysable:" + gotType + ":" + rule + ":" + caseTag.substr(0, caseTag.find(' ')), "expected " + wantType + "\n" + issueSummary(*analyser), text);
         stat("models_not_analysable");
         return;
     }
